@@ -166,12 +166,15 @@ fn main() {
             }
         }
         // rounding frontier for the wide paths
-        let qs = frontier::quotients(Level::Quick);
+        // both ends of the sorted quotient list: small quotients AND the ones next to 10^38 / 2^127-1, where the
+        // rounding step itself (quot + 1) leaves the range (seeded change C02-h1: wraps without overflow checks)
+        let qs: Vec<i128> = { let q = frontier::quotients(Level::Quick); let n = q.len(); q.iter().enumerate().filter(|(i, _)| *i < 22 || *i + 18 >= n).map(|(_, v)| *v).collect() };
         for &(p, q) in &[(18u8, 18u8), (9, 18), (18, 1), (0, 18), (10, 10)] {
-            for &b in &[3i128, 7, -7, 1 << 64, (1i128 << 100) + 277, 10i128.pow(18), i128::MAX / 3] {
+            // multipliers just above 10^s put products strictly inside (Q*10^s, (Q+1)*10^s): the rounding step then decides
+            for &b in &[3i128, 7, -7, 1 << 64, (1i128 << 100) + 277, 10i128.pow(18), i128::MAX / 3, 10i128.pow(18) + 1, 10i128.pow(9) + 1, 101, 11, 10i128.pow(18) + 7] {
                 let mut aa = Vec::new();
-                frontier::frontier_mul_round(b, (p + q) as u32 - 18, &qs[..40], &mut aa);
-                frontier::frontier_div_round(b, (18 + q - p) as u32, 0, &qs[..40], &mut aa);
+                frontier::frontier_mul_round(b, (p + q) as u32 - 18, &qs, &mut aa);
+                frontier::frontier_div_round(b, (18 + q - p) as u32, 0, &qs, &mut aa);
                 aa.retain(|x| *x != i128::MIN);
                 aa.sort(); aa.dedup();
                 for a in aa { binary(&mut c, a, p, b, q, mi, &[0, 18]); }
